@@ -3,7 +3,7 @@
    types; andb/orb inlined) and ExtrOcamlString (ascii => char, string => char list). nat, N, Z, positive
    stay the extracted inductive datatypes. *)
 From Coq Require Import Extraction ExtrOcamlBasic ExtrOcamlString.
-From GV Require Import Base.Util Spec.Smiles Spec.Chem Spec.Iso Model.PyLite Gen.Converter Gen.Tables Model.Library Model.Gate Spec.Graft Model.Merger Spec.Ebnf Gen.Grammar Spec.Reader Model.Edge Spec.Modify Spec.Skeleton Model.Walker Model.Splice Model.Memo Gen.WalkerGen.
+From GV Require Import Base.Util Spec.Smiles Spec.Chem Spec.Iso Model.PyLite Gen.Converter Gen.Tables Model.Library Model.Gate Spec.Graft Model.Merger Spec.Ebnf Gen.Grammar Spec.Reader Model.Edge Spec.Modify Spec.Skeleton Model.Walker Model.Splice Model.Memo Gen.WalkerGen Model.IsoFast.
 Extraction Language OCaml.
 Extraction "../_build/extracted/gv.ml"
   Util.s2l Util.nat2str Util.str2nat
@@ -14,7 +14,7 @@ Extraction "../_build/extracted/gv.ml"
   Library.library_issues Library.library_issues_fast Library.issue_text Library.check_distinct Library.check_mirror Library.anomeric_sites Library.reduce_open Library.flip_all
   Tables.pyranoses Tables.furanoses Tables.opens Tables.functional_groups
   Gate.gate Gate.get_smiles_model
-  Graft.denotes Graft.strip_tree Graft.glycan_mol Graft.backbone Graft.residue_frame
+  Graft.denotes Graft.denotes_with Graft.strip_tree Graft.glycan_mol Graft.backbone Graft.residue_frame
   Merger.relabel Merger.merge_children Merger.sanitize Tables.dummy_atoms
   Ebnf.accepts Memo.accepts_m Ebnf.lex Grammar.token_table Grammar.rules Grammar.start_rule
   Reader.read Reader.render Reader.size
@@ -23,4 +23,5 @@ Extraction "../_build/extracted/gv.ml"
   Skeleton.deoxy Skeleton.anhydro Skeleton.oxidise Skeleton.reduce_ring Skeleton.terminal_carbon Skeleton.chain_length Skeleton.position Iso.same_except_at Iso.inverted_exactly_at
   Walker.parse_begin Walker.parse_begin_with Walker.walk WalkerGen.walk_gen
   Splice.splice_children Splice.splice_check
+  IsoFast.same_molecule_f IsoFast.same_constitution_f IsoFast.mirror_image_f IsoFast.iso_profiles_f IsoFast.same_except_at_f IsoFast.inverted_exactly_at_f
   Iso.same_molecule Iso.same_constitution Iso.mirror_image Iso.iso_profiles Iso.strip_h.
